@@ -171,6 +171,7 @@ def concrete(v):
 class Frame:
     def __init__(self, mod, fname):
         self.mod = mod; self.fname = fname; self.vars = {}
+        self.cls = None; self.self_obj = None
 
 
 class Interp:
@@ -183,10 +184,14 @@ class Interp:
         self.module_const_cache = {}
 
     # ------------------------------------------------------------ entry points
-    def call(self, mod, fnode, args=(), kwargs=None, self_obj=None):
+    def call(self, mod, fnode, args=(), kwargs=None, self_obj=None, owner=None):
         """Bind arguments as Python would and interpret the body. Returns the returned value (None if falls off)."""
         kwargs = dict(kwargs or {})
         frame = Frame(mod, fnode.name)
+        frame.cls = owner; frame.self_obj = self_obj
+        if owner is None and self_obj is not None and getattr(self_obj, 'cls', None) is not None:
+            m0 = self.find_method(self_obj.cls, fnode.name)
+            frame.cls = m0[2] if m0 and m0[1] is fnode else self.owner_of(self_obj.cls, fnode)
         a = fnode.args
         params = [p.arg for p in a.posonlyargs + a.args]
         defaults = a.defaults
@@ -521,6 +526,12 @@ class Interp:
         return Builtin(nm)
 
     def e_Attribute(self, e, fr):
+        if isinstance(e.value, ast.Call) and isinstance(e.value.func, ast.Name) and e.value.func.id == 'super' and fr.cls is not None and fr.self_obj is not None:
+            for b in self.bases_of(fr.cls):
+                m = self.find_method(b, e.attr)
+                if m:
+                    return FuncRef(m[0], m[1], cls=m[2], bound=fr.self_obj)
+            return (lambda *a, **k: None)        # base class outside the repository (object, CySolver, ...): no-op
         base = self.eval(e.value, fr)
         a = e.attr
         if isinstance(base, Opaque):
@@ -533,10 +544,10 @@ class Interp:
                 if m is not None:
                     decos = [ast.unparse(d) for d in m[1].decorator_list]
                     if 'property' in decos:
-                        return self.call(m[0], m[1], [], {}, self_obj=base)
+                        return self.call(m[0], m[1], [], {}, self_obj=base, owner=m[2])
                     if 'staticmethod' in decos:
-                        return FuncRef(m[0], m[1], cls=base.cls, bound=None)
-                    return FuncRef(m[0], m[1], cls=base.cls, bound=base)
+                        return FuncRef(m[0], m[1], cls=m[2], bound=None)
+                    return FuncRef(m[0], m[1], cls=m[2], bound=base)
             return base.get(a)
         if isinstance(base, ModuleRef):
             d = base.dotted
@@ -568,16 +579,36 @@ class Interp:
         raise AnalysisError(f'{fr.mod.where(e)}: attribute .{a} of {type(base).__name__}')
 
     def find_method(self, cls, name):
+        """-> (mod, FunctionDef, owner class tuple) following single inheritance through resolvable bases"""
         _, mod, node = cls
         for st in node.body:
             if isinstance(st, ast.FunctionDef) and st.name == name:
-                return mod, st
+                # prefer the getter when a property has getter + setter of the same name
+                cands = [s2 for s2 in node.body if isinstance(s2, ast.FunctionDef) and s2.name == name]
+                getter = next((c for c in cands if any(ast.unparse(d) == 'property' for d in c.decorator_list)), cands[0])
+                return mod, getter, cls
+        for b in self.bases_of(cls):
+            m = self.find_method(b, name)
+            if m: return m
+        return None
+
+    def bases_of(self, cls):
+        _, mod, node = cls
+        out = []
         for b in node.bases:
-            if isinstance(b, ast.Name):
-                r = self.repo.resolve(mod, b.id)
-                if r and r[0] == 'def' and isinstance(r[2], ast.ClassDef):
-                    m = self.find_method(('class', r[1], r[2]), name)
-                    if m: return m
+            nm = b.id if isinstance(b, ast.Name) else (b.attr if isinstance(b, ast.Attribute) else None)
+            if nm is None: continue
+            r = self.repo.resolve(mod, nm)
+            if r and r[0] == 'def' and isinstance(r[2], ast.ClassDef):
+                out.append(('class', r[1], r[2]))
+        return out
+
+    def owner_of(self, cls, fnode):
+        _, mod, node = cls
+        if any(st is fnode for st in node.body): return cls
+        for b in self.bases_of(cls):
+            o = self.owner_of(b, fnode)
+            if o: return o
         return None
 
     def e_UnaryOp(self, e, fr):
@@ -881,7 +912,7 @@ class Interp:
             return X.add(to_node(args[0]), X.mul(to_node(args[1]), X.I))
         if isinstance(f, FuncRef):
             self.trace_calls.append((fr.mod.where(e) if e is not None else '', f.node.name))
-            return self.call(f.mod, f.node, args, kwargs, self_obj=f.bound)
+            return self.call(f.mod, f.node, args, kwargs, self_obj=f.bound, owner=f.cls if f.bound is not None else None)
         if isinstance(f, Opaque):
             return Opaque(f.name + '()')
         if callable(f) and not isinstance(f, (FuncRef, Builtin)):
